@@ -16,7 +16,7 @@ import (
 
 type quiet struct{}
 
-func (quiet) SetLevel(logger.LogLevel)                  {}
+func (quiet) SetLevel(logger.LogLevel)                    {}
 func (quiet) Debugf(format string, args ...interface{})   {}
 func (quiet) Infof(format string, args ...interface{})    {}
 func (quiet) Warningf(format string, args ...interface{}) {}
